@@ -16,6 +16,8 @@ from verif.reglang.alphabet import alphabet
 
 def _lang_of_cond(node: ast.AST, param: str, consts: dict, al) -> A.DFA:
     nomark = A.nomark(al)
+    if isinstance(node, ast.Constant) and isinstance(node.value, bool):
+        return nomark if node.value else nomark - nomark
     if isinstance(node, ast.UnaryOp) and isinstance(node.op, ast.Not):
         return nomark - _lang_of_cond(node.operand, param, consts, al)
     if isinstance(node, ast.BoolOp):
@@ -96,26 +98,19 @@ def decision_language(module: str, func: str, param: str | None = None) -> tuple
     for st in body:
         if done:
             raise ExtractionError("statements after the final return")
-        if isinstance(st, ast.Return) and isinstance(st.value, ast.Constant) and isinstance(st.value.value, bool):
-            if st.value.value:
-                true_lang = true_lang | remaining
-            clauses.append(f"else -> {st.value.value}")
+        # a returned expression is itself a condition over the parameter (`return True`,
+        # `return not P.match(value)`, `return bool(...)`-free boolean combinations)
+        if isinstance(st, ast.Return) and st.value is not None:
+            true_lang = true_lang | (remaining & _lang_of_cond(st.value, param, consts, al))
+            clauses.append(f"else -> {ast.unparse(st.value)[:60]}")
             done = True
             continue
-        if (
-            isinstance(st, ast.If)
-            and not st.orelse
-            and len(st.body) == 1
-            and isinstance(st.body[0], ast.Return)
-            and isinstance(st.body[0].value, ast.Constant)
-            and isinstance(st.body[0].value.value, bool)
-        ):
+        if isinstance(st, ast.If) and not st.orelse and len(st.body) == 1 and isinstance(st.body[0], ast.Return) and st.body[0].value is not None:
             cond = _lang_of_cond(st.test, param, consts, al)
             hit = remaining & cond
-            if st.body[0].value.value:
-                true_lang = true_lang | hit
+            true_lang = true_lang | (hit & _lang_of_cond(st.body[0].value, param, consts, al))
             remaining = remaining - cond
-            clauses.append(f"{ast.unparse(st.test)} -> {st.body[0].value.value}")
+            clauses.append(f"{ast.unparse(st.test)} -> {ast.unparse(st.body[0].value)[:60]}")
             continue
         raise ExtractionError(f"{func}: statement outside the decision-list subset: {ast.unparse(st)[:80]}")
     if not done:
